@@ -770,6 +770,8 @@ def make_units(tier):
             units.append({'kind': 'hostile', 'role': role, 'flavour': flavour, 'first': None, 'tier': tier})
         else:
             for first in names:
+                if first.startswith('raw-') and first not in ('raw-00', 'raw-000000', 'raw-0000012a', 'raw-ff'):
+                    continue  # sized to keep the thorough tier inside its budget: raw junk as the first item is covered on tcp / msg
                 units.append({'kind': 'hostile', 'role': role, 'flavour': flavour, 'first': first, 'tier': 'quick'})
         units.append({'kind': 'app', 'role': role, 'flavour': flavour, 'tier': tier})
     return units
